@@ -4586,13 +4586,18 @@ impl PeerConnectionInner {
                 let mid = &section.mid;
                 let mut found: Option<(usize, Arc<RtpTransceiver>)> = None;
 
-                // 1) Prefer exact MID match when remote provides MID.
+                // 1) Prefer exact MID match when remote provides MID.  The kind
+                // must match as well, exactly as in set_remote_description: a
+                // local transceiver of another kind can hold the same mid
+                // (e.g. assigned by a create_offer() that was never applied),
+                // and the section would be answered with the wrong media type.
                 if !mid.is_empty() {
                     for (idx, t) in transceivers.iter().enumerate() {
                         if used_indices.contains(&idx) {
                             continue;
                         }
-                        if let Some(t_mid) = t.mid()
+                        if t.kind() == section.kind
+                            && let Some(t_mid) = t.mid()
                             && t_mid == *mid
                         {
                             found = Some((idx, t.clone()));
@@ -11684,6 +11689,41 @@ a=rtpmap:96 VP8/90000\r\n"
             sdp.contains("a=mid:0") && sdp.contains("a=mid:1"),
             "answer must keep both mids, got:\n{sdp}"
         );
+    }
+
+    /// A local audio transceiver got mid "0" from a create_offer() that was
+    /// never applied; a remote offer then uses mid "0" for video.  The answer
+    /// must describe the video section, not the audio transceiver.
+    #[tokio::test]
+    async fn answer_matches_transceiver_by_mid_and_kind() {
+        let remote_sdp = "\
+v=0\r\n\
+o=- 1 2 IN IP4 127.0.0.1\r\n\
+s=-\r\n\
+t=0 0\r\n\
+a=group:BUNDLE 0\r\n\
+m=video 9 UDP/TLS/RTP/SAVPF 96\r\n\
+c=IN IP4 0.0.0.0\r\n\
+a=ice-ufrag:IIjZ\r\n\
+a=ice-pwd:h/NG2DkTNsPwhU0swhrzWbLD\r\n\
+a=fingerprint:sha-256 A9:96:C7:D5:20:2D:17:06:CC:7E:94:0D:89:AA:DE:47:8F:21:3F:97:B1:D5:C5:A2:41:48:E1:A5:8A:D5:BB:B1\r\n\
+a=setup:actpass\r\n\
+a=mid:0\r\n\
+a=sendrecv\r\n\
+a=rtcp-mux\r\n\
+a=rtpmap:96 VP8/90000\r\n";
+
+        let pc = PeerConnection::new(RtcConfiguration::default());
+        pc.add_transceiver(MediaKind::Audio, TransceiverDirection::SendRecv);
+        let _abandoned = pc.create_offer().await.unwrap();
+
+        let remote = SessionDescription::parse(SdpType::Offer, remote_sdp).unwrap();
+        pc.set_remote_description(remote).await.unwrap();
+
+        let answer = pc.create_answer().await.unwrap();
+        assert_eq!(answer.media_sections.len(), 1);
+        assert_eq!(answer.media_sections[0].kind, MediaKind::Video);
+        assert_eq!(answer.media_sections[0].mid, "0");
     }
 
     /// a=setup may be given once at session level (RFC 4145 4).  An offerer
